@@ -265,6 +265,7 @@ def pow_sup(a, k):
 MAXSUP = 8
 STR_PURE = {"strip", "lstrip", "rstrip", "lower", "upper", "casefold", "title", "capitalize", "replace", "startswith", "endswith",
             "removeprefix", "removesuffix", "isdigit", "isalpha", "zfill"}
+JOIN_MAY = [True]     # False while values that are all present are united (container items, loop accumulation)
 MAY = "?alt"       # formal symbol carried by the monomials that entered a support through a control-flow join (either-or, not a sum)
 
 
@@ -275,6 +276,34 @@ def mark_may(sup):
         d.setdefault(MAY, Fr(1))
         out.add(tuple(sorted(d.items())))
     return out
+
+
+HET = "?part"      # carried by the monomials that entered the support of a CONTAINER through the union of its items: some entries have this
+                   # degree, others another.  The container as a whole has them all (a stacked matrix with rows of a wrong degree is wrong);
+                   # ONE element taken out of it has one of them - which, the domain does not know: on extraction ?part becomes ?alt
+
+
+def mark_het(sup):
+    out = set()
+    for m in sup:
+        d = dict(m)
+        d.setdefault(HET, Fr(1))
+        out.add(tuple(sorted(d.items())))
+    return out
+
+
+def het_to_may(v):
+    """the value of ONE element / one unpacked position of v"""
+    if isinstance(v, Deg) and any(s_ == HET for m in v.sup for s_, _ in m):
+        sup = set()
+        for m in v.sup:
+            d = dict(m)
+            if HET in d:
+                del d[HET]
+                d.setdefault(MAY, Fr(1))
+            sup.add(tuple(sorted(d.items())))
+        return Deg(frozenset(sup), v.rank, getattr(v, "tag", None))
+    return v
 
 
 def is_may(v):
@@ -289,7 +318,7 @@ def is_may(v):
 
 
 def too_large(s):
-    return Top("support too large" + (f" (with alternatives {MAY})" if any(x == MAY for m in s for x, _ in m) else ""))
+    return Top("support too large" + (f" (with alternatives {MAY})" if any(x in (MAY, HET) for m in s for x, _ in m) else ""))
 
 
 def num(v):
@@ -316,7 +345,7 @@ def num(v):
         its = list(v.items) + ([v.tail] if isinstance(v, Lst) and v.tail is not None else [])
         r = ANY
         for i in its:
-            r = join(r, num(i))
+            r = union(r, num(i))        # the items of a container all exist: their degrees are a union, not alternatives
         if isinstance(r, Deg):
             rks = [getattr(num(i), "rank", None) for i in its]
             rk = None
@@ -330,6 +359,16 @@ def num(v):
     if isinstance(v, tuple):
         return Unk(f"num({v[0]})")
     return v
+
+
+def union(a, b):
+    """join of values that are ALL present (items of a container, parts of a stack): no either-or marking"""
+    old = JOIN_MAY[0]
+    JOIN_MAY[0] = None          # (None: mark what the second brings as ?part)
+    try:
+        return join(a, b)
+    finally:
+        JOIN_MAY[0] = old
 
 
 def join(a, b):
@@ -380,7 +419,9 @@ def join(a, b):
                     all(getattr(x, "sup", None) == getattr(y, "sup", 0) for x, y in zip(a.dims, b.dims)):
                 return Arr(a.sup, a.dims, a.tag if a.tag == b.tag else None)
             return Deg(a.sup, a.rank if a.rank == b.rank else None, a.tag if a.tag == b.tag else None)
-        s = a.sup | frozenset(mark_may(b.sup - a.sup))      # either a or b: the part only b brings is an alternative, not a summand
+        # either a or b: the part only b brings is an alternative, not a summand.  Not so at the head of a LOOP: what the body adds to an
+        # accumulated value (rows stacked on, terms added) is there whenever the loop runs at all
+        s = a.sup | (frozenset(mark_may(b.sup - a.sup)) if JOIN_MAY[0] else (frozenset(mark_het(b.sup - a.sup)) if JOIN_MAY[0] is None else (b.sup - a.sup)))
         return Deg(s, a.rank if a.rank == b.rank else None) if len(s) <= MAXSUP else too_large(s)
     if isinstance(a, Tup) and isinstance(b, Tup) and len(a.items) == len(b.items):
         return Tup([join(x, y) for x, y in zip(a.items, b.items)])
@@ -474,11 +515,28 @@ def inv(a, what="inverse", node=None):
         return a
     if isinstance(a, Deg):
         if not a.single():
+            parts = _entrywise(a)
+            if parts is not None and what in ("division", "inverse of a scalar"):
+                # a container whose ENTRIES differ in degree (each entry homogeneous): the element-wise reciprocal is taken entry by entry
+                return Deg(frozenset(parts), a.rank)
             if node is not None:
                 CTX.event("nonhom", node, f"{what} of a non-homogeneous quantity {a.fmt()}")
             return Top(f"{what} of non-homogeneous {a.fmt()}")
         return Deg(pow_sup(a.sup, -1), a.rank)
     return Unk(f"inv({a})")
+
+
+def _entrywise(a):
+    """the monomial-wise reciprocal of a support whose monomials (all but at most one) carry the ?part marker - a union over the entries of
+    a container, not a sum inside one value; None otherwise"""
+    plain = [m for m in a.sup if not any(s_ == HET for s_, _ in m)]
+    if len(plain) > 1:
+        return None
+    out = set()
+    for m in a.sup:
+        d = {s_: (-e_ if s_ not in (HET, MAY) else e_) for s_, e_ in m}
+        out.add(tuple(sorted(d.items())))
+    return out
 
 
 def power(a, k, node=None):
@@ -535,15 +593,15 @@ def elem(a):
     if isinstance(a, Lst):
         r = a.tail
         for i in a.items:
-            r = join(r, i)
+            r = union(r, i)
         return r if r is not None else ANY
     if isinstance(a, Tup):
         r = None
         for i in a.items:
-            r = join(r, i)
+            r = union(r, i)
         return r if r is not None else ANY
     if isinstance(a, Deg):
-        return Deg(a.sup, a.rank - 1 if a.rank else None, a.tag)
+        return het_to_may(Deg(a.sup, a.rank - 1 if a.rank else None, a.tag))
     if isinstance(a, Any_):
         return AnyR(a.rank - 1) if a.rank else ANY
     if isinstance(a, Dct):
@@ -1227,13 +1285,19 @@ def copy_env(env):
     return {k: (v.copy() if isinstance(v, Lst) else v) for k, v in env.items()}
 
 
-def join_env(a, b):
+def join_env(a, b, loop=False):
     out = {}
-    for k in set(a) | set(b):
-        if k in a and k in b:
-            out[k] = join(a[k], b[k])
-        else:
-            out[k] = a.get(k, b.get(k))
+    old = JOIN_MAY[0]
+    if loop:
+        JOIN_MAY[0] = False
+    try:
+        for k in set(a) | set(b):
+            if k in a and k in b:
+                out[k] = join(a[k], b[k])
+            else:
+                out[k] = a.get(k, b.get(k))
+    finally:
+        JOIN_MAY[0] = old
     return out
 
 
@@ -1735,9 +1799,9 @@ def _exec_loop(s, fr):
                 if fr.returned:
                     # a return inside the generic iteration: may or may not happen
                     fr.returned = False
-                    fr.env = join_env(before, fr.env)
+                    fr.env = join_env(before, fr.env, loop=True)
                     break
-                new = join_env(before, fr.env)
+                new = join_env(before, fr.env, loop=True)
                 if env_sig(new) == env_sig(before):
                     fr.env = new
                     break
@@ -1758,9 +1822,9 @@ def _exec_loop(s, fr):
             fr.broke = False
             if fr.returned:
                 fr.returned = False
-                fr.env = join_env(before, fr.env)
+                fr.env = join_env(before, fr.env, loop=True)
                 break
-            new = join_env(before, fr.env)
+            new = join_env(before, fr.env, loop=True)
             same = env_sig(new) == env_sig(before)
             fr.env = new
             if same:
@@ -1915,6 +1979,8 @@ def subscript(base, idx, node):
                     continue
                 drop += 1
             rk = max(rk - drop, 0) + addn
+            if drop:
+                b = het_to_may(b)           # an element / a row taken out of a container whose entries differ in degree
         return withrank(b, rk) if not isinstance(b, IdxV) else b
     return b
 
